@@ -27,6 +27,7 @@ from pycel.excelutil import (
     EMPTY,
     ERROR_CODES,
     in_array_formula_context,
+    is_address,
     NAME_ERROR,
     PyCelException,
     uniqueify,
@@ -599,6 +600,22 @@ class ExcelFormula:
                             tokens[i + 1].string == '(' and
                             tokens[i + 3].string == ')'):
                         addrs.append(AddressRange(tokens[i + 2].string[1:-1]))
+
+                        # a range operator between two written references
+                        # reads all of the range that spans both of them
+                        j = i - 1
+                        while j > 0 and tokens[j].string == '(':
+                            j -= 1
+                        if t.string == '_REF_' and tokens[j].string == '**':
+                            j -= 1
+                            while j > 0 and tokens[j].string == ')':
+                                j -= 1
+                            if (j >= 2 and tokens[j - 1].string == '(' and
+                                    tokens[j - 2].string == '_REF_'):
+                                union = AddressRange(
+                                    tokens[j].string[1:-1]) ** addrs[-1]
+                                if is_address(union):  # pragma: no branch
+                                    addrs.append(union)
                 self._needed_addresses = uniqueify(addrs)
             else:
                 self._needed_addresses = ()
